@@ -10,7 +10,7 @@ CHECKS = {
     "C01": (
         "property-based differential testing (proptest) against an independently written, hardware-calibrated reference Z80; metamorphic relations on the implementation alone",
         "exploration",
-        "Every generated CPU state is applied to all 1792 encodings and executed on rustzx-z80 and on the reference; ordered memory/port accesses with data, every register incl. alternates/I/R/IFF/IM/MEMPTR and whole memory are compared, and the Q latch is exposed by a SCF/CCF probe; instruction sequences carry state across 2..64 instructions. DD/FD-before-non-HL and undefined-ED-as-NOP are also checked without the reference. Sampling of the state space with exhaustive coverage of encodings.",
+        "Every generated CPU state is applied to all 1792 encodings and executed on rustzx-z80 and on the reference; ordered memory/port accesses with data, every register incl. alternates/I/R/IFF/IM/MEMPTR and whole memory are compared, and the Q latch is exposed by a SCF/CCF probe; instruction sequences carry state across 2..64 instructions. DD/FD-before-non-HL and undefined-ED-as-NOP are also checked without the reference. Sampling of the state space with exhaustive coverage of encodings. Built with overflow checks and debug assertions on (cargo profile `checked`): a panic inside the implementation is a violation.",
         REF + "Not judged: MEMPTR after repeating INxR/OTxR, Q right after a repeating block iteration.",
         "DESIGN.md sections 3 and 5 (C01)",
         "E1 reference Z80 + trace bus",
@@ -18,7 +18,7 @@ CHECKS = {
     "C02": (
         "property-based differential testing (proptest) of generated programs x INT/NMI schedules against the reference Z80",
         "exploration",
-        "Generated flag-independent programs with EI/DI/HALT/IM/RETN/RETI/prefix chains run in lock-step on implementation and reference under generated INT pulse schedules and NMI edges; acceptance decision at every boundary, pushed return address, vector reads, new PC, IFF1/IFF2, HALT release and RETN/RETI IFF copy are compared.",
+        "Generated flag-independent programs with EI/DI/HALT/IM/RETN/RETI/prefix chains run in lock-step on implementation and reference under generated INT pulse schedules and NMI edges; acceptance decision at every boundary, pushed return address, vector reads, new PC, IFF1/IFF2, HALT release and RETN/RETI IFF copy are compared. Built with overflow checks and debug assertions on (cargo profile `checked`): a panic inside the implementation is a violation.",
         REF + "INT/NMI are scheduled over the memory-cycle index (independent of T-state accounting). Not judged: NMI directly after EI/DI/prefix, NMI edge latched during an interrupt entry, HALT refetch address.",
         "DESIGN.md sections 3 and 5 (C02)",
         "E1 reference Z80 + trace bus",
@@ -26,7 +26,7 @@ CHECKS = {
     "C03": (
         "property-based differential testing (proptest): timing skeleton of every encoding x timing variant against the reference Z80's bus-cycle breakdown",
         "exploration",
-        "For generated states biased to select every timing variant, all 1792 encodings are executed on both models and the ordered (kind, clocks, address) skeleton including every single delay T-state and the T total is compared; interrupt entry (IM 0/1/2, NMI) and HALT refetch totals and memory cycles likewise. Coverage of 17 named variants and 5 entry kinds is asserted (a generator hole is exit 2). Acknowledge T-states presented as addressed delays must carry the return address; an internal delay of several T-states in one bus call is an anomaly; compare instructions meet A-(HL) in {0, 1, 0xFF, 0x10}.",
+        "For generated states biased to select every timing variant, all 1792 encodings are executed on both models and the ordered (kind, clocks, address) skeleton including every single delay T-state and the T total is compared; interrupt entry (IM 0/1/2, NMI) and HALT refetch totals and memory cycles likewise. Coverage of 17 named variants and 5 entry kinds is asserted (a generator hole is exit 2). Acknowledge T-states presented as addressed delays must carry the return address; an internal delay of several T-states in one bus call is an anomaly; compare instructions meet A-(HL) in {0, 1, 0xFF, 0x10}. Built with overflow checks and debug assertions on (cargo profile `checked`): a panic inside the implementation is a violation.",
         REF + "The reference breakdown follows the published Spectrum contention tables and has its own documented-T-state self-check.",
         "DESIGN.md sections 3 and 5 (C03)",
         "E1 reference Z80 + trace bus",
@@ -138,7 +138,7 @@ CHECKS = {
     "C17": (
         "property-based testing (proptest) of input event histories against a set model, read back through emulated IN instructions",
         "exploration",
-        "After every event of a generated press/release/move history the emulated CPU reads all 8 half-rows, generated multi-row selectors, the Kempston port and the three mouse ports; values are compared with a per-source set model (matrix, compound keys with shared CAPS SHIFT, Sinclair mapping from the property text, Kempston OR, active-low buttons, 4-bit wheel, X += dx, Y -= dy).",
+        "After every event of a generated press/release/move history the emulated CPU reads all 8 half-rows, generated multi-row selectors, the Kempston port and the three mouse ports; values are compared with a per-source set model (matrix, compound keys with shared CAPS SHIFT, Sinclair mapping from the property text, Kempston OR, active-low buttons, 4-bit wheel, X += dx, Y -= dy). One selector is also read right before and right after every event, as a program polling one row does.",
         "Trusted: keyboard matrix/compound/Sinclair tables written from hardware documentation. Known finding: Sinclair joystick 2 'down' (excluded by construction while its probe reproduces it).",
         "DESIGN.md section 5 (C17)",
         "E2 emulator lock-step",
@@ -154,7 +154,7 @@ CHECKS = {
     "C19": (
         "property-based differential testing (proptest): sample counts and per-sample speaker levels against the reference machine's timestamped ULA writes",
         "exploration",
-        "Generated speaker-toggling programs at rates 8000-384000, volumes, enable combinations and drain behaviours: cumulative sample count must be frames x floor(rate/50); with the beeper alone every sample must equal the level of a speaker/MIC state current within one sample period of its frame time (levels measured on a calibration machine, states and times from the reference machine); monotone in EAR then MIC, left = right, linear in volume, volume 0 silent, finite; undrained queues stay below two frames. The per-frame count is exact; in a third of the cases the host re-asserts its settings mid-run. In part of the runs the host switches sound off before one frame and on again before a later one; the frames from there on are judged as before.",
+        "Generated speaker-toggling programs at rates 8000-384000, volumes, enable combinations and drain behaviours: cumulative sample count must be frames x floor(rate/50); with the beeper alone every sample must equal the level of a speaker/MIC state current within one sample period of its frame time (levels measured on a calibration machine, states and times from the reference machine); monotone in EAR then MIC, left = right, linear in volume, volume 0 silent, finite; undrained queues stay below two frames. The per-frame count is exact; in a third of the cases the host re-asserts its settings mid-run. In part of the runs the host switches sound off before one frame and on again before a later one; the frames from there on are judged as before. In a third of the cases program and CPU state are delivered as an SZX snapshot loaded at a frame boundary.",
         REF,
         "DESIGN.md section 5 (C19)",
         "E2 reference machine + emulator",
